@@ -177,6 +177,10 @@ MUTANTS: dict[str, dict[str, list[tuple[str, str, str]]]] = {
                                             'self._linkage.insert(self._committer, dumper, 0) if not self._linkage[self._committer] else None')],
     },
     'C20': {
+        'registration-bank-by-bank': [('forml/provider/__init__.py',
+                                       """        for parent in parents:  # a colliding provider is refused as a whole - before any of the banks gets touched
+            BANK[parent].verify(cls, alias)
+""", '')],
         'providers-iterated-live-again': [('forml/provider/__init__.py', 'return iter(tuple(BANK[cls].provider))',
                                            'return iter(BANK[cls].provider)')],
         'collision-check-dropped': [('forml/provider/__init__.py', """                raise forml.UnexpectedError(f'Provider reference collision ({ref})')
